@@ -27,7 +27,7 @@ Allowed(name) == CASE name \in {"StringPrefixLenType", "ArrayPrefixLenType"} -> 
                    [] name = "FixedStringPadChar" -> {"'0'", "' '", "'\\x00'"}
                    [] OTHER -> {}                       \* free text
 \* the options a program sets through its `opts` record (rendered before xopts, after the 3 package options)
-StdOpts(p) == <<"GoPackage", "GoModule", "JavaPackage">>
+StdOpts(p) == (IF p.opts.pkgs = "omit" THEN <<>> ELSE <<"GoPackage", "GoModule", "JavaPackage">>)
               \o (IF p.opts.le # "" THEN <<"LittleEndian">> ELSE <<>>)
               \o (IF p.opts.sp # "" THEN <<"StringPrefixLenType">> ELSE <<>>)
               \o (IF p.opts.ap # "" THEN <<"ArrayPrefixLenType">> ELSE <<>>)
@@ -49,8 +49,8 @@ IllFormed(p) ==
 \cup { <<"illegalOptionValue", <<"xopt", k>>>> : k \in {k \in 1..Len(p.xopts) :
             p.xopts[k][1] \in KnownOptions /\ Allowed(p.xopts[k][1]) # {} /\ p.xopts[k][2] \notin Allowed(p.xopts[k][1])} }
 \cup { <<"dupOption", <<"xopt", k>>>> : k \in {k \in 1..Len(p.xopts) : p.xopts[k][1] \in KnownOptions /\
-            (\E h \in 1..Len(StdOpts(p)) : StdOpts(p)[h] = p.xopts[k][1]
-             \/ \E g \in 1..(k-1) : p.xopts[g][1] = p.xopts[k][1])} }
+            ((\E h \in 1..Len(StdOpts(p)) : StdOpts(p)[h] = p.xopts[k][1])
+             \/ (\E g \in 1..(k-1) : p.xopts[g][1] = p.xopts[k][1]))} }
 \cup UNION { LET pk == p.pkts[j] IN
        { <<"dupField", <<"field", j, i>>>> : i \in {i \in 1..Len(pk.fields) : \E h \in 1..(i-1) : pk.fields[h].name = pk.fields[i].name} }
   \cup { <<"lenofOutsideRoot", <<"field", j, i>>>> : i \in {i \in 1..Len(pk.fields) : pk.fields[i].k = "len" /\ ~pk.root} }
@@ -161,7 +161,11 @@ Base4 == [opts |-> O("", ""), xopts |-> <<>>, metas |-> <<>>,
                           [F0 EXCEPT !.k = "inl", !.name = "Inner", !.fs = <<Sc("p", "u8")>>],
                           [F0 EXCEPT !.k = "match", !.name = "Trailer", !.key = "T", !.pairs = <<Pair("1", <<0, 1>>, "B"), Pair("3", <<0, 3>>, "A")>>]>>],
                       PA, PB >>]
-Bases == <<Base1, Base2, Base3, Base4>>
+\* the package options written out by the author with their default (empty) value
+Base5 == [opts |-> [O("", "") EXCEPT !.pkgs = "omit"],
+          xopts |-> <<<<"GoPackage", "\"\"">>, <<"JavaPackage", "\"\"">>, <<"GoModule", "\"m\"">>>>, metas |-> <<>>,
+          pkts |-> << [name |-> "Only", root |-> TRUE, fields |-> <<Sc("a", "u8")>>] >>]
+Bases == <<Base1, Base2, Base3, Base4, Base5>>
 
 (* ------------------------------- faults --------------------------------- *)
 AppendField(p, j, f) == [p EXCEPT !.pkts[j].fields = Append(@, f)]
@@ -176,6 +180,8 @@ Faults(p) ==
                          <<"FixedStringPadChar", "\"0\"">>, <<"LittleEndian", "1">>} :
                   /\ ~\E h \in 1..Len(StdOpts(p)) : StdOpts(p)[h] = y[1]
                   /\ ~\E h \in 1..Len(p.xopts) : p.xopts[h][1] = y[1] } }
+\cup { [class |-> "dupOption", prog |-> [p EXCEPT !.xopts = Append(@, <<p.xopts[h][1], "\"again\"">>)]] :
+         h \in {h \in 1..Len(p.xopts) : p.xopts[h][1] \in {"GoPackage", "JavaPackage", "GoModule"}} }
 \cup { [class |-> "dupOption", prog |-> [p EXCEPT !.xopts = Append(@, <<StdOpts(p)[h], IF h <= 3 THEN "\"x\"" ELSE IF StdOpts(p)[h] = "LittleEndian" THEN "true" ELSE "u16">>)]] :
          h \in {h \in 1..Len(StdOpts(p)) : StdOpts(p)[h] \in {"GoPackage", "LittleEndian", "StringPrefixLenType"}} }
 \cup UNION { { [class |-> "dupField", prog |-> AppendField(p, j, p.pkts[j].fields[i])] :
